@@ -418,22 +418,27 @@ async def vanished_selection(part, prop, backend):
         config, login = await backends.make_maildir(base, users=[('bob', 'pwbob', ())], bad_command_limit=None)
     try:
         srv = IMAPServer(login, config)
+        n_ = 0
         for how in (b'DELETE gone', b'RENAME gone elsewhere',
                     # the mailbox stays, its messages change behind the selecting connection's back: CLOSE has to cope with a stale view
                     b'SELECT gone|STORE 1 +FLAGS (\\Deleted)|EXPUNGE', b'SELECT gone|STORE 1:* +FLAGS (\\Deleted)|CLOSE', b'SELECT gone|STORE 2 +FLAGS (\\Deleted)|EXPUNGE|APPEND gone {1+}\r\nx',
-                    b'APPEND gone (\\Deleted) {1+}\r\nx', b'SELECT gone|MOVE 1 INBOX'):
+                    b'APPEND gone (\\Deleted) {1+}\r\nx', b'SELECT gone|MOVE 1 INBOX', b'SELECT gone|MOVE 2:3 INBOX', b'SELECT gone|STORE 1 +FLAGS (\\Deleted)|EXPUNGE|CHECK',
+                    b'RENAME gone elsewhere|CREATE gone', b'DELETE gone|CREATE gone|APPEND gone {1+}\r\nx'):
+            # every variant in a mailbox of its own: what an earlier variant left behind (a deleted and re-created name, say) is not part of this one
+            n_ += 1
+            how = how.replace(b'gone', b'gone%d' % n_).replace(b'elsewhere', b'elsewhere%d' % n_)
+            gone = b'gone%d' % n_
             a, b = wire.Client(srv), wire.Client(srv)
             await a.start()
             await b.start()
             await a.send(b'a LOGIN bob pwbob\r\n')
             await b.send(b'b LOGIN bob pwbob\r\n')
-            await a.send(b'a CREATE gone\r\n')
-            await a.send(b'a DELETE elsewhere\r\n')
+            await a.send(b'a CREATE %s\r\n' % gone)
             for k in range(3):
-                await a.send(b'a APPEND gone (\\Deleted) {2+}\r\nm%d\r\n' % k)
-            raw = await a.send(b'a SELECT gone\r\n')
+                await a.send(b'a APPEND %s (\\Deleted) {2+}\r\nm%d\r\n' % (gone, k))
+            raw = await a.send(b'a SELECT %s\r\n' % gone)
             case = dict(scenario='vanished-selection', backend=backend, how=how.decode())
-            part.case(key=f'vanished:{backend}:{how.decode()}', nontrivial=True)
+            part.case(key=f'vanished:{backend}:{how.decode().replace(gone.decode(), "gone")}', nontrivial=True)
             if b'a OK' not in raw:
                 continue
             for step in how.split(b'|'):
@@ -450,7 +455,8 @@ async def vanished_selection(part, prop, backend):
                 ok += [len(out) > 1 and out[1].startswith(b'a BAD'), len(out) > 2 and b'a OK' in out[2], len(out) > 3 and b'a OK' in out[3]]
             if not all(ok):
                 part.violation('monitor', f'{prop}: {backend}: after `{how.decode()}` by another connection, CLOSE / CLOSE / NOOP / SELECT INBOX on the connection that had the mailbox '
-                               f'selected answered {out!r}; expected OK (deselected), BAD (nothing selected), OK, OK', case, signature='vanished-selection')
+                               f'selected answered {out!r}; expected OK (deselected), BAD (nothing selected), OK, OK', case,
+                               signature='reselected-by-name' if b'CREATE ' + gone in how else 'vanished-selection')
             await a.eof()
             await b.eof()
     finally:
